@@ -943,8 +943,7 @@ def _contexts_active_by_referents(frame: types.FrameType, origin: Any) -> List[C
     `Context`, and it's possible to fool it in some unlikely
     circumstances (e.g., if you have a local variable that points
     directly to an ``__exit__`` or ``__aexit__`` method, or if a context
-    manager's ``__exit__`` method is a static method or thinks its name
-    is something other than ``__exit__``).
+    manager's ``__exit__`` method is a static method).
     """
     ret: List[Context] = []
     root: Any = frame
@@ -956,18 +955,24 @@ def _contexts_active_by_referents(frame: types.FrameType, origin: Any) -> List[C
         root = origin
 
     for referent in gc.get_referents(root):
-        if isinstance(referent, types.MethodType) and referent.__func__.__name__ in (
-            "__exit__",
-            "__aexit__",
-        ):
-            # 'with' and 'async with' statements push a reference to the
-            # __exit__ or __aexit__ method that they'll call when exiting.
-            ret.append(
-                Context(
-                    is_async="a" in referent.__func__.__name__,
-                    obj=referent.__self__,
-                )
-            )
+        if not isinstance(referent, types.MethodType):
+            continue
+        # 'with' and 'async with' statements push a reference to the
+        # __exit__ or __aexit__ method that they'll call when exiting.
+        # Recognize it by name, or (for an exit method that is an alias of,
+        # or a decorator around, a differently-named function) by being
+        # what the manager's type has as its __exit__ / __aexit__.
+        func = referent.__func__
+        name = getattr(func, "__name__", None)
+        if name not in ("__exit__", "__aexit__"):
+            tp = type(referent.__self__)
+            if getattr(tp, "__aexit__", None) is func:
+                name = "__aexit__"
+            elif getattr(tp, "__exit__", None) is func:
+                name = "__exit__"
+            else:
+                continue
+        ret.append(Context(is_async="a" in name, obj=referent.__self__))
     exiting = currently_exiting_context(frame)
     if exiting is not None:
         ret.append(Context(obj=None, is_async=exiting.is_async, is_exiting=True))
